@@ -36,6 +36,9 @@ func runC17(p *core.Program, r *core.Report) {
 	c17R7(p, r)
 	generatorOrderSources(p, r, "R6", "devpkg/deepcopygen", "devpkg/deepcopygen/helper")
 	c17R8(p, r)
+	c17R9(p, r)
+	c17R10(p, r)
+	c17R11(p, r)
 }
 
 // c17R8: on-demand generation of same-package dependencies.
@@ -634,4 +637,224 @@ func isPkgOfObject(info *types.Info, c *ast.CallExpr) bool {
 func isMethodOfVar(info *types.Info, c *ast.CallExpr, name string) bool {
 	sel, ok := ast.Unparen(c.Fun).(*ast.SelectorExpr)
 	return ok && sel.Sel.Name == name && len(c.Args) == 0 && core.NamedTypeName(info.TypeOf(sel.X)) == "go/types.Var"
+}
+
+// c17R9: "a copy is deeply equal to its original": the field loop of the shared copy helper renders a copy statement
+// for every field of the struct. The only conditions on the way to the statement are the caller's Skip predicate and
+// the blank name `_` (which cannot be referenced) - a further filter silently leaves fields of the copy zero.
+func c17R9(p *core.Program, r *core.Report) {
+	const rule = "R9"
+	r.Floor(rule, 1)
+	cf := p.FuncByName("devpkg/deepcopygen/helper", "(*StructFieldsCopy).createFieldSnippet")
+	if cf == nil {
+		r.Anchor(rule, "devpkg/deepcopygen/helper.(*StructFieldsCopy).createFieldSnippet")
+		return
+	}
+	n := 0
+	for _, cs := range allCalls(p) {
+		if cs.In.Body == nil || core.CalleeFunc(cs.In.Info(), cs.Call) != cf.Obj() {
+			continue
+		}
+		f := cs.In
+		info := f.Info()
+		g := graph(f)
+		n++
+		var fv *types.Var
+		if len(cs.Call.Args) == 1 {
+			fv = core.VarOf(info, cs.Call.Args[0])
+		}
+		bad := ""
+		loopConds := map[ast.Expr]bool{}
+		for _, nd := range core.PathTo(f.Body, cs.Call) {
+			if fs, ok := nd.(*ast.ForStmt); ok && fs.Cond != nil {
+				loopConds[fs.Cond] = true
+			}
+		}
+		for _, fct := range g.FactsAt(g.PointOf(cs.Call)) {
+			if fct.Tag != nil {
+				bad = core.ExprStr(fct.Tag)
+				continue
+			}
+			if loopConds[fct.Cond] {
+				continue // the bound of the loop over the fields (C14.R3 pairs it with the accessor)
+			}
+			// a compound condition is acceptable when each of its operands is
+			var leaves []ast.Expr
+			var split func(e ast.Expr)
+			split = func(e ast.Expr) {
+				e = ast.Unparen(e)
+				if b, ok := e.(*ast.BinaryExpr); ok && (b.Op == token.LAND || b.Op == token.LOR) {
+					split(b.X)
+					split(b.Y)
+					return
+				}
+				if u, ok := e.(*ast.UnaryExpr); ok && u.Op == token.NOT {
+					split(u.X)
+					return
+				}
+				leaves = append(leaves, e)
+			}
+			split(fct.Cond)
+			for _, c := range leaves {
+				okLeaf := false
+				// the caller's predicate: a field of func type, tested against nil or called with the field
+				if b, ok := c.(*ast.BinaryExpr); ok && (b.Op == token.EQL || b.Op == token.NEQ) {
+					if id, isNil := ast.Unparen(b.Y).(*ast.Ident); isNil && id.Name == "nil" {
+						if fld := core.FieldOf(info, b.X); fld != nil {
+							if _, isFn := fld.Type().Underlying().(*types.Signature); isFn {
+								okLeaf = true
+							}
+						}
+					}
+					// f.Name() == "_"
+					if s, isC := core.ConstString(info, b.Y); isC && s == "_" {
+						if nc, isCall := ast.Unparen(b.X).(*ast.CallExpr); isCall && core.CalleeName(info, nc) == "(*go/types.Var).Name" && core.VarOf(info, recvOf(nc)) == fv {
+							okLeaf = true
+						}
+					}
+				}
+				if call, ok := c.(*ast.CallExpr); ok {
+					if fld := core.FieldOf(info, call.Fun); fld != nil {
+						if _, isFn := fld.Type().Underlying().(*types.Signature); isFn {
+							okLeaf = true
+						}
+					}
+					// the result of an earlier yield
+					if v := core.VarOf(info, call.Fun); v != nil && v == yieldParam(f) {
+						okLeaf = true
+					}
+				}
+				if !okLeaf {
+					bad = core.ExprStr(c)
+				}
+			}
+		}
+		r.Check(bad == "", rule, f, "every field of the struct gets a copy statement", cs.Call.Pos(), "the statement is rendered unless the caller's Skip predicate says otherwise",
+			"fields are also filtered by `"+bad+"`: such a field gets no copy statement at all, the copy keeps the zero value and is not deeply equal to its original")
+	}
+	if n == 0 {
+		r.Anchor(rule, "call of createFieldSnippet in the field loop")
+	}
+}
+
+// c17R10 (sibling agreement): the generator renders DeepCopy/DeepCopyInto for every same-package named type it is asked
+// for - except interfaces, for which it answers ErrSkip and renders nothing. The field-copy helper assumes the methods
+// exist for every same-package named field ("always gen") and reports the type as a dependency; both must exclude the
+// interface kind, or the rendered `in.F.DeepCopyInto(&out.F)` has no method to call and the dependency's ErrSkip ends the
+// loop over the remaining dependencies.
+func c17R10(p *core.Program, r *core.Report) {
+	const rule = "R10"
+	r.Floor(rule, 1)
+	cf := p.FuncByName("devpkg/deepcopygen/helper", "(*StructFieldsCopy).createFieldSnippet")
+	gt := p.FuncByName("devpkg/deepcopygen", "(*deepcopyGen).generateType")
+	if cf == nil || gt == nil {
+		r.Anchor(rule, "createFieldSnippet of the copy helper and generateType of the deepcopy generator")
+		return
+	}
+	// does the generator refuse interfaces?
+	ginfo := gt.Info()
+	refuses := false
+	ast.Inspect(gt.Body, func(m ast.Node) bool {
+		ret, ok := m.(*ast.ReturnStmt)
+		if !ok || len(ret.Results) != 1 || !isSentinel(ginfo, ret.Results[0]) {
+			return true
+		}
+		for _, tf := range typeFactsAt(gt, ret) {
+			if core.NamedTypeName(tf.Type) == "go/types.Interface" {
+				refuses = true
+			}
+		}
+		return true
+	})
+	if !refuses {
+		r.OK(rule, gt, "the generator renders the copy methods for every kind of same-package named type", gt.Node().Pos(), "no kind is answered with a sentinel")
+		return
+	}
+	info := cf.Info()
+	g := graph(cf)
+	n := 0
+	ast.Inspect(cf.Body, func(m ast.Node) bool {
+		as, ok := m.(*ast.AssignStmt)
+		if !ok || len(as.Lhs) != 1 || len(as.Rhs) != 1 {
+			return true
+		}
+		fld := core.FieldOf(info, as.Lhs[0])
+		if fld == nil || !strings.HasPrefix(fld.Name(), "HasDeepCopy") {
+			return true
+		}
+		if id, isTrue := ast.Unparen(as.Rhs[0]).(*ast.Ident); !isTrue || id.Name != "true" {
+			return true
+		}
+		n++
+		excluded := false
+		for _, tf := range typeFactsNegAt(cf, as) {
+			if core.NamedTypeName(tf.Type) == "go/types.Interface" {
+				excluded = true
+			}
+		}
+		_ = g
+		r.Check(excluded, rule, cf, "the copy methods are taken for granted only for kinds the generator renders them for: "+fld.Name(), as.Pos(), "the store is reached only when the type's underlying type is not an interface",
+			"`"+core.ExprStr(as)+"` is reached for every same-package named field type, also for an interface type - for which the generator answers ErrSkip and renders no methods: the generated `in.F."+strings.TrimPrefix(fld.Name(), "Has")+"(...)` does not compile, and the ErrSkip of that dependency ends the loop over the dependencies that follow it")
+		return true
+	})
+	if n == 0 {
+		r.Anchor(rule, "`fc.HasDeepCopy[Into] = true` for same-package fields in createFieldSnippet")
+	}
+}
+
+// isSentinel: the expression names one of the framework's control values ErrSkip / ErrIgnore.
+func isSentinel(info *types.Info, e ast.Expr) bool {
+	var id *ast.Ident
+	switch x := ast.Unparen(e).(type) {
+	case *ast.SelectorExpr:
+		id = x.Sel
+	case *ast.Ident:
+		id = x
+	}
+	if id == nil {
+		return false
+	}
+	v, ok := info.ObjectOf(id).(*types.Var)
+	return ok && v.Pkg() != nil && core.RelPkg(v.Pkg().Path()) == "pkg/gengo" && (v.Name() == "ErrSkip" || v.Name() == "ErrIgnore")
+}
+
+// c17R11: generateType calls itself for the dependencies of a type, in a loop that stops at the first non-nil error.
+// A sentinel (ErrSkip) returned by the callee is swallowed by the framework further up, so the loop ends silently and
+// the dependencies after it are never rendered. Sentinels may therefore be returned only for a kind of type that is
+// never a dependency (R10): under a type fact on the argument's underlying type.
+func c17R11(p *core.Program, r *core.Report) {
+	const rule = "R11"
+	r.Floor(rule, 1)
+	gt := p.FuncByName("devpkg/deepcopygen", "(*deepcopyGen).generateType")
+	if gt == nil {
+		r.Anchor(rule, "devpkg/deepcopygen.(*deepcopyGen).generateType")
+		return
+	}
+	info := gt.Info()
+	recursive := false
+	for _, c := range core.Calls(gt.Body, true) {
+		if core.CalleeFunc(info, c) == gt.Obj() {
+			recursive = true
+		}
+	}
+	n := 0
+	ast.Inspect(gt.Body, func(m ast.Node) bool {
+		ret, ok := m.(*ast.ReturnStmt)
+		if !ok || len(ret.Results) != 1 || !isSentinel(info, ret.Results[0]) {
+			return true
+		}
+		n++
+		kind := false
+		for _, tf := range typeFactsAt(gt, ret) {
+			if strings.HasPrefix(core.NamedTypeName(tf.Type), "go/types.") {
+				kind = true
+			}
+		}
+		r.Check(kind || !recursive, rule, gt, "a sentinel is returned only for a kind of type that is never a dependency", ret.Pos(), "under a type fact on the underlying type",
+			"`"+core.ExprStr(ret)+"` does not depend on the kind of the type: when the type is reached as a dependency, the loop over the dependencies takes the sentinel for a failure and returns, the framework turns it into success, and the dependencies that follow are never generated (the generated file calls DeepCopyInto methods that do not exist)")
+		return true
+	})
+	if n == 0 {
+		r.OK(rule, gt, "generateType returns no sentinel", gt.Node().Pos(), "nothing can end the dependency loop silently")
+	}
 }
